@@ -651,6 +651,7 @@ type Nd struct {
 	Name string
 	Kids []Nd
 	Sub  map[string]Nd
+	Grid [][]string // cells named after the node and their position
 }
 
 func (n Nd) Get() string { return n.Name }
@@ -659,6 +660,7 @@ func (n Nd) Get() string { return n.Name }
 // print alike (121 nodes: concrete names keep the solver out of it)
 func mkNd(name string, depth int) Nd {
 	n := Nd{Name: name}
+	n.Grid = [][]string{{name + ".g00", name + ".g01"}, {name + ".g10", name + ".g11"}}
 	if depth > 0 {
 		n.Kids = []Nd{mkNd(name+"0", depth-1), mkNd(name+"1", depth-1)}
 		n.Sub = map[string]Nd{"k": mkNd(name+"k", depth-1)}
@@ -672,7 +674,12 @@ func RepeatedNames() {
 	ctx.Set("x", []Nd{r})
 	ctx.Set("r", r)
 	ctx.Set("tree", map[string]Nd{"r": r})
-	ctx.Set("Kids", []Nd{{Name: "outer"}, {Name: "outer"}}) // a context variable named like the field
+	// a context variable named like the field: a collection like the field itself, or one element
+	if vrt.Choice(2) == 0 {
+		ctx.Set("Kids", []Nd{mkNd("outer0", 2), mkNd("outer1", 2)})
+	} else {
+		ctx.Set("Kids", mkNd("outer", 2))
+	}
 	type cs struct {
 		expr string
 		want string
@@ -691,7 +698,27 @@ func RepeatedNames() {
 		{"x[0].Kids[1].Sub[\"k\"].Kids[0].Name", r.Kids[1].Sub["k"].Kids[0].Name},
 		{"r.Sub[\"k\"].Sub[\"k\"].Kids[1].Name", r.Sub["k"].Sub["k"].Kids[1].Name},
 	}
-	c := cases[vrt.Choice(len(cases))]
+	// a member indexed twice after an index: plush may refuse the form (a syntax error is
+	// a failure, which the property allows), but what it yields is that cell
+	ctx.Set("Grid", [][]string{{"outer", "outer"}, {"outer", "outer"}})
+	twoD := []cs{
+		{"x[0].Grid[1][0]", r.Grid[1][0]},
+		{"x[0].Kids[1].Grid[1][0]", r.Kids[1].Grid[1][0]},
+		{"x[0].Kids[1].Kids[0].Grid[0][1]", r.Kids[1].Kids[0].Grid[0][1]},
+		{"x[0].Kids[1].Kids[0].Kids[1].Grid[1][1]", r.Kids[1].Kids[0].Kids[1].Grid[1][1]},
+		{"tree[\"r\"].Sub[\"k\"].Sub[\"k\"].Grid[0][1]", r.Sub["k"].Sub["k"].Grid[0][1]},
+		{"r.Kids[1].Kids[0].Grid[1][0]", r.Kids[1].Kids[0].Grid[1][0]},
+		{"r.Grid[1][0]", r.Grid[1][0]},
+	}
+	k := vrt.Choice(len(cases) + len(twoD))
+	if k >= len(cases) {
+		c := twoD[k-len(cases)]
+		got, err := render("<%= "+c.expr+" %>", ctx)
+		vrt.Assert(err != nil || got == c.want, "a member indexed twice is that cell of the element reached so far, or a failure: "+c.expr)
+		vrt.Cover("done")
+		return
+	}
+	c := cases[k]
 	got, err := render("<%= "+c.expr+" %>", ctx)
 	vrt.Assert(err == nil, "a path with a repeated field name renders: "+c.expr)
 	vrt.Assert(got == c.want, "every level of a path resolves against the element reached so far: "+c.expr)
